@@ -14,11 +14,12 @@ meaning is exercised by the bounded stand-in bounded/c19_native.py with the real
   df.copy()                   new frame object with the same table value
   len(df)                     pd.nrows(F) >= 0
   df[col] = v                 $frame := pd.setcol(F, col, v)       projections setcol_base/name/val
-  df.sample(n=k, replace=False, ...)   a FRESH table value X (a new one at each call) labelled with
-                              pd.sample_src(X) == F and pd.sample_n(X) == k   ("k rows drawn from F
-                              without replacement"); that pandas does not raise here (0 <= k <= rows)
+  df.sample(n=k, replace=b, ...)   a FRESH table value X (a new one at each call) labelled with
+                              pd.sample_src(X) == F, pd.sample_n(X) == k and pd.sample_replace(X) == b  ("k rows
+                              drawn from F", without replacement iff not b); that pandas does not raise here (0 <= k <= rows)
                               is NOT proved deductively (bounded stand-in)
-  pd.concat(list, ...)        pd.concat(n, parts) with projections nparts / part
+  pd.concat(list, ignore_index=b)   pd.concat(n, parts) with projections nparts / part and the label
+                              pd.renumbered(t) == b  (row labels are the positions 0..n-1 iff ignore_index=True)
   series.values, x in values  pd.has(S, x)
 
 SCOPE: active only while a function of property C19 is verified (ctx.prop == 'C19'); declines otherwise, so the
@@ -146,11 +147,17 @@ def _pd_method(ex, st, recv, name, args, kwargs, node):
         if args or 'n' not in kwargs:
             raise Unsupported('DataFrame.sample without n=')
         rep = kwargs.get('replace')
-        if rep is None or rep.lit is not False:
-            raise Unsupported('DataFrame.sample: only replace=False is modelled')
-        for k, want in (('axis', 'index'), ('ignore_index', True)):
-            if k in kwargs and kwargs[k].lit != want:
-                raise Unsupported(f'DataFrame.sample: {k} must be {want!r}')
+        # round 3 (agent m2): replace=True is no longer out of subset: the sample is labelled pd.sample_replace == b and the
+        # contracts require "without replacement" (the choice set contains no alternative twice)
+        if rep is not None and rep.lit is not True and rep.lit is not False:
+            raise Unsupported('DataFrame.sample: computed replace=')
+        with_replacement = bool(rep.lit) if rep is not None else False
+        if 'axis' in kwargs and kwargs['axis'].lit != 'index':
+            raise Unsupported("DataFrame.sample: axis must be 'index'")
+        # ignore_index only changes the row labels of the sample; labels are modelled for the final concatenation only
+        # (pd.renumbered), so any literal is accepted
+        if 'ignore_index' in kwargs and kwargs['ignore_index'].lit not in (True, False):
+            raise Unsupported('DataFrame.sample: computed ignore_index')
         if set(kwargs) - {'n', 'replace', 'axis', 'ignore_index'}:
             raise Unsupported('DataFrame.sample: unmodelled keyword')
         if st.spec:
@@ -158,6 +165,7 @@ def _pd_method(ex, st, recv, name, args, kwargs, node):
         x = z3.Const(fresh_name('pd!sample'), Val)
         st.assume(uf('pd.sample_src', Val, Val)(x) == frame_of(st, recv))
         st.assume(uf('pd.sample_n', Val, I)(x) == as_int(kwargs['n']))
+        st.assume(uf('pd.sample_replace', Val, B)(x) == z3.BoolVal(with_replacement))
         ex.ctx.note('LIBSPEC pandas df.sample(n=k, replace=False): a fresh table value of k distinct rows of df '
                     '(labels sample_src/sample_n); absence of a pandas ValueError (0 <= k <= rows) is assumed')
         return mk_df(ex, st, x)
@@ -180,8 +188,20 @@ def _concat(ex, st, args, kwargs, node):
     n = st.list_len(lst)
     elems = st.list_elems(lst)
     parts = lambda j: z3.Select(fr, Val.rv(z3.Select(elems, j)))
-    ex.ctx.note('LIBSPEC pandas.concat(frames, ignore_index=True): a table value with projections pd.nparts / pd.part')
-    return mk_df(ex, st, concat(ex, st, n, parts))
+    ex.ctx.note('LIBSPEC pandas.concat(frames, ignore_index=b): a table value with projections pd.nparts / pd.part and the '
+                'label pd.renumbered == b (rows labelled 0..n-1 iff ignore_index=True)')
+    t = concat(ex, st, n, parts)
+    # round 3 (agent m2): whether the rows of the result are renumbered 0..n-1 -- process_row names the columns
+    # `<col>_<row label>`, so the label of a row must be its position in the sample
+    ign = kwargs.get('ignore_index')
+    if ign is None:
+        renum = z3.BoolVal(False)
+    elif ign.lit is True or ign.lit is False:
+        renum = z3.BoolVal(ign.lit)
+    else:
+        raise Unsupported('pandas.concat: computed ignore_index')
+    st.assume(uf('pd.renumbered', Val, B)(t) == renum)
+    return mk_df(ex, st, t)
 
 
 _orig_call_lib = lib.call_lib
@@ -218,6 +238,9 @@ def _compare(self, st, op, l, r, node):
     if mine(self) and isinstance(op, ast.Eq) and is_series(l) and not is_series(r):
         self.ctx.note('LIBSPEC pandas series == x: free constructor pd.eq(series, x) (a mask)')
         return mk_series(uf('pd.eq', Val, Val, Val)(l.t, self.box(st, r)))
+    if mine(self) and isinstance(op, ast.NotEq) and is_series(l) and not is_series(r):
+        self.ctx.note('LIBSPEC pandas series != x: free constructor pd.ne(series, x) (a mask, unrelated to pd.eq)')
+        return mk_series(uf('pd.ne', Val, Val, Val)(l.t, self.box(st, r)))
     return _orig_compare(self, st, op, l, r, node)
 
 
